@@ -51,7 +51,7 @@ func c01ExecSig(c *vf.Ctx, d *vf.Driver, cs c01SigCase) {
 	if goat == "ok" {
 		var k *c01Key
 		if cs.Key.Variant != "nil" {
-			k = c01Keys()[cs.Key.Idx%len(c01Keys())]
+			k = c01KeyByIdx(cs.Key.Idx)
 		}
 		bad := cs.Key.Variant == "enc" || cs.Key.Variant == "signonly" || !c01StdVerify(cs.Alg, k, cs.Input, cs.Sig)
 		if a, _ := c01AlgByName(cs.Alg); a.Family == "hs" && !cs.Weak && k != nil && len(k.Oct) < c01HashSize(a.Hash) {
